@@ -69,63 +69,63 @@ type Move struct {
 
 // Op is one client operation.
 type Op struct {
-	K       string `json:"op"`
-	Key     B      `json:"k,omitempty"`
-	Val     V      `json:"v,omitempty"`
-	Recs    []Rec  `json:"recs,omitempty"`
-	Sync    bool   `json:"sync,omitempty"`
-	NoMerge bool   `json:"nomerge,omitempty"`
-	Slot    int    `json:"slot,omitempty"`  // snapshot / iterator slot
-	Via     string `json:"via,omitempty"`   // "", "snap", "tx"
-	Start   B      `json:"start,omitempty"` // range
-	Limit   B      `json:"limit,omitempty"`
-	HasS    bool   `json:"hs,omitempty"`
-	HasL    bool   `json:"hl,omitempty"`
-	Moves   []Move `json:"moves,omitempty"`
-	Body    []Op   `json:"body,omitempty"` // transaction body
-	Commit  bool   `json:"commit,omitempty"`
-	Ms      int    `json:"ms,omitempty"`  // sleep
-	Knob    *Knobs `json:"knobs,omitempty"` // reopen with new knobs
-	Scrib   bool   `json:"scrib,omitempty"`
-	RO      bool   `json:"ro,omitempty"`
-	Keep    bool   `json:"keep,omitempty"` // iterator: keep open in slot after script
-	DontFill bool  `json:"dontfill,omitempty"`
+	K        string `json:"op"`
+	Key      B      `json:"k,omitempty"`
+	Val      V      `json:"v,omitempty"`
+	Recs     []Rec  `json:"recs,omitempty"`
+	Sync     bool   `json:"sync,omitempty"`
+	NoMerge  bool   `json:"nomerge,omitempty"`
+	Slot     int    `json:"slot,omitempty"`  // snapshot / iterator slot
+	Via      string `json:"via,omitempty"`   // "", "snap", "tx"
+	Start    B      `json:"start,omitempty"` // range
+	Limit    B      `json:"limit,omitempty"`
+	HasS     bool   `json:"hs,omitempty"`
+	HasL     bool   `json:"hl,omitempty"`
+	Moves    []Move `json:"moves,omitempty"`
+	Body     []Op   `json:"body,omitempty"` // transaction body
+	Commit   bool   `json:"commit,omitempty"`
+	Ms       int    `json:"ms,omitempty"`    // sleep
+	Knob     *Knobs `json:"knobs,omitempty"` // reopen with new knobs
+	Scrib    bool   `json:"scrib,omitempty"`
+	RO       bool   `json:"ro,omitempty"`
+	Keep     bool   `json:"keep,omitempty"` // iterator: keep open in slot after script
+	DontFill bool   `json:"dontfill,omitempty"`
 }
 
 // Knobs is the explicit option vector of a run.
 type Knobs struct {
-	Comparer             string  `json:"cmp"`
-	WriteBuffer          int     `json:"wb"`
-	TableSize            int     `json:"ts"`
-	TotalSize            int     `json:"tot"`
-	TotalMult            float64 `json:"totmul"`
-	TableMult            float64 `json:"tsmul,omitempty"`
-	L0Trigger            int     `json:"l0"`
-	L0Slowdown           int     `json:"l0slow"`
-	L0Pause              int     `json:"l0pause"`
-	ExpandLimit          int     `json:"expand,omitempty"`
-	GPOverlaps           int     `json:"gp,omitempty"`
-	SourceLimit          int     `json:"srclim,omitempty"`
-	BlockSize            int     `json:"bs"`
-	RestartInterval      int     `json:"ri"`
-	NoCompression        bool    `json:"nocomp,omitempty"`
-	FilterBits           int     `json:"fbits,omitempty"` // 0 = no filter
-	FilterBaseLg         int     `json:"fbase,omitempty"`
-	AltFilterBits        []int   `json:"alt,omitempty"`
-	BlockCache           int     `json:"bc"`  // -1 disabled, 0 default
-	OpenFiles            int     `json:"ofc"` // -1 disabled, 0 default
-	DisableBufferPool    bool    `json:"nobp,omitempty"`
-	DisableBlockCache    bool    `json:"nobc,omitempty"`
-	EvictRemoved         bool    `json:"evrm,omitempty"`
-	SamplingRate         int     `json:"sr,omitempty"`
-	DisableSeeks         bool    `json:"noseek,omitempty"`
-	NoSync               bool    `json:"nosync,omitempty"`
-	NoWriteMerge         bool    `json:"nomerge,omitempty"`
-	DisableLargeBatchTx  bool    `json:"nolbt,omitempty"`
-	DisableBackoff       bool    `json:"nobackoff,omitempty"`
-	MaxManifest          int64   `json:"mmf,omitempty"`
-	Strict               uint    `json:"strict,omitempty"`
-	ReadOnly             bool    `json:"ro,omitempty"`
+	Comparer            string  `json:"cmp"`
+	WriteBuffer         int     `json:"wb"`
+	TableSize           int     `json:"ts"`
+	TotalSize           int     `json:"tot"`
+	TotalMult           float64 `json:"totmul"`
+	TableMult           float64 `json:"tsmul,omitempty"`
+	L0Trigger           int     `json:"l0"`
+	L0Slowdown          int     `json:"l0slow"`
+	L0Pause             int     `json:"l0pause"`
+	ExpandLimit         int     `json:"expand,omitempty"`
+	GPOverlaps          int     `json:"gp,omitempty"`
+	SourceLimit         int     `json:"srclim,omitempty"`
+	BlockSize           int     `json:"bs"`
+	RestartInterval     int     `json:"ri"`
+	NoCompression       bool    `json:"nocomp,omitempty"`
+	FilterBits          int     `json:"fbits,omitempty"` // 0 = no filter
+	FilterBaseLg        int     `json:"fbase,omitempty"`
+	AltFilterBits       []int   `json:"alt,omitempty"`
+	BlockCache          int     `json:"bc"`  // -1 disabled, 0 default
+	OpenFiles           int     `json:"ofc"` // -1 disabled, 0 default
+	DisableBufferPool   bool    `json:"nobp,omitempty"`
+	DisableBlockCache   bool    `json:"nobc,omitempty"`
+	EvictRemoved        bool    `json:"evrm,omitempty"`
+	SamplingRate        int     `json:"sr,omitempty"`
+	DisableSeeks        bool    `json:"noseek,omitempty"`
+	NoSync              bool    `json:"nosync,omitempty"`
+	NoWriteMerge        bool    `json:"nomerge,omitempty"`
+	DisableLargeBatchTx bool    `json:"nolbt,omitempty"`
+	DisableBackoff      bool    `json:"nobackoff,omitempty"`
+	MaxManifest         int64   `json:"mmf,omitempty"`
+	Strict              uint    `json:"strict,omitempty"`
+	ReadOnly            bool    `json:"ro,omitempty"`
 }
 
 // SchedCfg selects the scheduling strategy of a run.
@@ -189,10 +189,10 @@ func (c *Case) Size() int {
 
 type revCmp struct{}
 
-func (revCmp) Compare(a, b []byte) int              { return bytes.Compare(b, a) }
-func (revCmp) Name() string                         { return "verif.reverse" }
-func (revCmp) Separator(dst, a, b []byte) []byte    { return nil }
-func (revCmp) Successor(dst, b []byte) []byte       { return nil }
+func (revCmp) Compare(a, b []byte) int           { return bytes.Compare(b, a) }
+func (revCmp) Name() string                      { return "verif.reverse" }
+func (revCmp) Separator(dst, a, b []byte) []byte { return nil }
+func (revCmp) Successor(dst, b []byte) []byte    { return nil }
 
 // lenCmp orders by length first, then bytewise.
 type lenCmp struct{}
